@@ -318,3 +318,32 @@ Proof.
   - eapply Rle_trans; [apply Rplus_le_compat_r; apply (Rle_pow _ (S k) 21 Hb); lia|]. rewrite u53_val. interval with (i_prec 200).
   - eapply Rle_trans; [apply Rplus_le_compat_r; apply (Rle_pow _ (S k) 65 Hb); lia|]. rewrite u53_val. interval with (i_prec 200).
 Qed.
+
+(* the binary64 guard is satisfiable: Steps(1, 2, 3).value(1) — every rounded intermediate (1, 2, 3, 1.5) is a normal number *)
+Lemma rnd64_int z : (Z.abs z < 2 ^ 53)%Z -> rnd64 (IZR z) = IZR z.
+Proof.
+  intros H. unfold rnd64. apply round_generic; [apply valid_rnd_N|].
+  apply generic_format_FLT. apply (FLT_spec radix2 (-1074) 53 _ (Float radix2 z 0)).
+  - unfold F2R; simpl. ring.
+  - simpl. exact H.
+  - simpl. lia.
+Qed.
+
+Lemma normal_ge_one x : 1 <= Rabs x -> normal_or_zero x.
+Proof.
+  intros H. right. eapply Rle_trans; [|exact H].
+  change 1 with (bpow radix2 0). apply bpow_le. lia.
+Qed.
+
+Example steps_value_guard_example : steps_value_guard 1 2 3 1.
+Proof.
+  unfold steps_value_guard. cbn zeta. change (INR (3 - 1)) with 2. change (INR 1) with 1.
+  replace (1 * (2 - 1)) with (IZR 1) by (simpl; ring). replace (2 * 1) with (IZR 2) by (simpl; ring).
+  rewrite (rnd64_int 1), (rnd64_int 2) by (simpl; lia).
+  replace (IZR 1 + IZR 2) with (IZR 3) by (simpl; ring). rewrite (rnd64_int 3) by (simpl; lia).
+  repeat split; apply normal_ge_one.
+  - rewrite Rabs_pos_eq; simpl; lra.
+  - rewrite Rabs_pos_eq; simpl; lra.
+  - rewrite Rabs_pos_eq; simpl; lra.
+  - rewrite Rabs_pos_eq; simpl; lra.
+Qed.
